@@ -349,7 +349,7 @@ def check_files(case, ev):
     return None
 
 
-REPLAY = {"history": check_history, "bulk": check_bulk, "foreign": check_foreign, "files": check_files}
+REPLAY = {"history": check_history, "bulk": check_bulk, "bulk_long": check_bulk, "foreign": check_foreign, "files": check_files}
 
 
 @st.composite
@@ -357,8 +357,10 @@ def _bulk_case(draw, n):
     fam = draw(st.sampled_from([4, 4, 6]))
     W = 32 if fam == 4 else 128
     cfg = draw(G.config())
+    if n >= 20000:
+        fam, W = 4, 32  # long runs: IPv4 with no preserved host bits fills the memo fastest
     if fam == 4:
-        cfg["B4"] = draw(st.sampled_from([0, 0, 8, 4]))
+        cfg["B4"] = 0 if n >= 20000 else draw(st.sampled_from([0, 0, 8, 4]))
     else:
         cfg["B6"] = draw(st.sampled_from([0, 8, 32]))
     probe = [draw(G.u32 if fam == 4 else G.v6_int) for _ in range(5)]
@@ -412,7 +414,9 @@ def t_history(shard, nshards, seed, ev, known, n=100, steps=40):
 
 
 def t_bulk(shard, nshards, seed, ev, known, n=3, size=6000):
-    return core.hyp_drive(_bulk_case(size), check_bulk, n, seed, ev, known, check_name="bulk", shrink=False)
+    # the first examples Hypothesis generates are the simplest ones (empty lists, zero values): skip them
+    cases = core.collect_cases(_bulk_case(size), n + 3, seed)[3:]
+    return core.enum_drive(cases, check_bulk, ev, known, "bulk")
 
 
 def t_foreign(shard, nshards, seed, ev, known, n=300):
@@ -428,6 +432,7 @@ def plan(tier):
     return [
         Task("history", t_history, shards=4 if q else 16, n=150 if q else 3000, steps=40 if q else 60),
         Task("bulk", t_bulk, shards=4 if q else 16, n=2 if q else 12, size=6000 if q else 12000),
+        Task("bulk_long", t_bulk, shards=2 if q else 8, n=1 if q else 4, size=24000 if q else 60000),
         Task("foreign", t_foreign, shards=2 if q else 16, n=400 if q else 10000),
         Task("files", t_files, shards=2 if q else 16, n=60 if q else 1500),
     ]
